@@ -594,6 +594,11 @@ class PhaseFieldHDScn(PhaseFieldScn):
         simu.add_dirichlet(lo, [0.0, 0.0], ["x", "y"])
         simu.add_dirichlet(hi, [{0: 0.6, 1: 0.15, 2: 0.3}[cfg["bc"]]], ["x"])
 
+    def matrices(self, simu):
+        # with the damage-based solver the damage system is a function of (u, d) and the parameters only (no private history field):
+        # both systems are compared
+        return Scenario.matrices(self, simu)
+
     def observe(self, simu, cfg, solve=True):
         out = self.matrices(simu)
         out["Wdef"] = np.atleast_1d(np.asarray(simu.Result("Wdef"), dtype=float))
